@@ -166,8 +166,8 @@ def nocrash_obs(timeout):
 
                 def mk_pre(gname, both_str=(ta == 'str' and tb == 'str')):
                     def pre(a, b, dp):
-                        if both_str and MAXLEN[0] == 2 and len(a) + len(b) > 3:
-                            return False              # text x text in the thorough tier: total length <= 3 (2+2 does not finish)
+                        if both_str and MAXLEN[0] == 2 and len(a) + len(b) > 2:
+                            return False              # text x text in the thorough tier: total length <= 2 (total 3 needs 50-90 min per operator group)
                         for v in (a, b):
                             if not ascii_text(v):
                                 return False
@@ -188,7 +188,7 @@ def nocrash_obs(timeout):
                 nstr = (ta == 'str') + (tb == 'str')
                 obs.append(Ob(f'c07.no-crash[{gname}:{ta},{tb}]', mk_h(ta, tb, ops), pre=mk_pre(gname), witness=wit, timeout=timeout, cost=[3, 40, 150][nstr], family='c07.no-crash',
                               ctx=dateutil_stub, stubs=['P4 dateutil.parser.parse -> (datetime | ValueError) chosen by a symbolic Boolean'],
-                              bounds=f'operators {[o[0] for o in ops]} on ({ta}, {tb})' + (" [text x text in the quick tier: alphabet 'a1 -']" if (ta == tb == 'str' and MAXLEN[0] == 1) else ' [text x text: total length <= 3]' if ta == tb == 'str' else '') + ': ints ' + ('-4..4' if gname == 'pow' else '-999..999' if gname == 'concat' else 'unbounded')
+                              bounds=f'operators {[o[0] for o in ops]} on ({ta}, {tb})' + (" [text x text in the quick tier: alphabet 'a1 -']" if (ta == tb == 'str' and MAXLEN[0] == 1) else ' [text x text: total length <= 2]' if ta == tb == 'str' else '') + ': ints ' + ('-4..4' if gname == 'pow' else '-999..999' if gname == 'concat' else 'unbounded')
                                      + (f'; texts: printable ASCII at length <= 1, alphabet {AL07!r} at length 2' if MAXLEN[0] == 2 else f'; texts: length <= 1 over the alphabet {AL07!r}') + '; one concrete date; result is a value or #VALUE!/#DIV/0!/#NUM!, never a Python exception',
                               show=lambda a, b, dp, ta=ta, tb=tb, gname=gname: f'{gname}: {"<date>" if ta == "date" else repr(a)} op {"<date>" if tb == "date" else repr(b)}'))
 
